@@ -42,6 +42,37 @@ def run(cmd, cwd=None, timeout=1200, env=None, capture=True):
         return 124, out + "\n[timeout after %ss]" % timeout
 
 
+def run_guarded(cmd, cwd=None, timeout=1200, env=None, rss_limit_kb=12 * 1024 * 1024):
+    """Like run, but the process is killed when its resident memory passes the limit (a change to the
+    code under test that allocates by magnitude must not take the machine down with it)."""
+    import threading
+    p = subprocess.Popen(cmd, cwd=cwd, env=env, stdout=subprocess.PIPE, stderr=subprocess.STDOUT, text=True)
+    state = {"killed": None}
+
+    def watch():
+        t0 = time.time()
+        while p.poll() is None:
+            try:
+                for line in open("/proc/%d/status" % p.pid):
+                    if line.startswith("VmRSS:") and int(line.split()[1]) > rss_limit_kb:
+                        state["killed"] = "resident memory above %d MiB" % (rss_limit_kb // 1024)
+                        p.kill()
+            except Exception:
+                pass
+            if time.time() - t0 > timeout:
+                state["killed"] = "timeout after %ss" % timeout
+                p.kill()
+            time.sleep(0.2)
+
+    th = threading.Thread(target=watch, daemon=True)
+    th.start()
+    out, _ = p.communicate()
+    th.join(timeout=2)
+    if state["killed"]:
+        return 124, (out or "") + "\n[killed: %s]" % state["killed"]
+    return p.returncode, out or ""
+
+
 class Lock:
     def __init__(self, name):
         os.makedirs(BUILD, exist_ok=True)
@@ -242,8 +273,8 @@ def main():
     results = []
     if os.path.exists(os.path.join(BUILD, "harness")) and not any(b["what"] == "build" for b in broken):
         budget = cfg.get("harness_timeout", {}).get(tier, 600)
-        rc, out = run([os.path.join(BUILD, "harness_race" if cfg.get("race") else "harness"), "-prop", prop, "-tier", tier, "-seed", str(seed), "-out", work],
-                      timeout=budget, env=goenv())
+        rc, out = run_guarded([os.path.join(BUILD, "harness_race" if cfg.get("race") else "harness"), "-prop", prop, "-tier", tier, "-seed", str(seed), "-out", work],
+                              timeout=budget, env=goenv())
         if rc != 0:
             prog = ""
             try:
